@@ -4,7 +4,8 @@
 tools/seedverify.sh confirmed: demo passes without the change, the whole existing suite passes
 with it, the demo fails with it."""
 import json, os, re, shutil, subprocess, sys
-SRC = "/tmp/seed/out"
+SRC = sys.argv[1] if len(sys.argv) > 1 else "/tmp/seed/out"
+PREFIX = sys.argv[2] if len(sys.argv) > 2 else ""
 DST = "/verif/seeded"
 head = subprocess.check_output(["git", "-C", "/repo", "rev-parse", "--short", "HEAD"]).decode().strip()
 for prop in sorted(os.listdir(SRC)):
@@ -15,7 +16,7 @@ for prop in sorted(os.listdir(SRC)):
             continue
         t = open(log).read()
         ok = ("demo-without: PASS" in t and "suite-with: PASS" in t and "demo-with: FAIL (good)" in t)
-        out = os.path.join(DST, f"{prop}-{m}")
+        out = os.path.join(DST, f"{prop}-{PREFIX}{m}")
         if not ok:
             print(f"{prop}-{m}: NOT confirmed, skipped"); continue
         if os.path.exists(os.path.join(out, "meta.json")):
@@ -39,4 +40,4 @@ for prop in sorted(os.listdir(SRC)):
             "detected_by": {},
         }
         json.dump(meta, open(os.path.join(out, "meta.json"), "w"), indent=1)
-        print(f"{prop}-{m}: installed")
+        print(f"{prop}-{PREFIX}{m}: installed")
